@@ -433,6 +433,99 @@ var ruleUnwrapThread = &Rule{
 				}
 			}
 		}
+		// … and not through a helper that hard-codes "do not unwrap" for the
+		// node it is handed (`executeItemUnwrapTargetArray(ctx, node, value,
+		// found)` calls the traversal with false: right for the caller's own
+		// node, which has just been unwrapped, wrong for the node that follows)
+		// parameters a function hands to the dispatcher as the unwrap decision
+		feeds := map[pk]bool{}
+		for _, h := range p.execFuncs() {
+			for _, c3 := range callsTo(h, disp) {
+				if dIdx < 0 || dIdx >= len(c3.Call.Args) {
+					continue
+				}
+				if q, ok := c3.Call.Args[dIdx].(*ssa.Parameter); ok && q.Parent() == h {
+					feeds[pk{h, paramIndex(q)}] = true
+				}
+			}
+		}
+		noUnwrapFor := func(g *ssa.Function) bool {
+			if g == nil || g.Blocks == nil || fnPkgPath(g) != pkgExec {
+				return false
+			}
+			for _, q := range g.Params {
+				if isBool(q.Type()) {
+					return false // it has a decision of its own to be told
+				}
+			}
+			for _, c2 := range p.allCalls(g) {
+				h := c2.Call.StaticCallee()
+				if h == nil || fnPkgPath(h) != pkgExec || !ownNodeArg(g, c2) {
+					continue
+				}
+				for j, a := range c2.Call.Args {
+					if j < len(h.Params) && isBool(h.Params[j].Type()) && (threaded[pk{h, j}] || unwrapLike[pk{h, j}] || feeds[pk{h, j}]) && isConstBool(a, false) {
+						return true
+					}
+				}
+			}
+			return false
+		}
+		for _, fn := range p.execFuncs() {
+			// the same decision handed to a function that passes it on to the
+			// dispatcher (`executeAnyItem(ctx, node.Next(), …, exec.autoUnwrap())`)
+			for _, c := range p.allCalls(fn) {
+				g := c.Call.StaticCallee()
+				if c.Call.IsInvoke() || g == nil || g == disp || fnPkgPath(g) != pkgExec || ownNodeArg(fn, c) {
+					continue
+				}
+				var other ssa.Value
+				for _, a := range c.Call.Args {
+					if types.Identical(a.Type(), p.A.Node) && !isNilConst(a) {
+						other = a
+					}
+				}
+				if other == nil {
+					continue
+				}
+				for j, a := range c.Call.Args {
+					if j >= len(g.Params) || !feeds[pk{g, j}] {
+						continue
+					}
+					nn++
+					key := fmt.Sprintf("%s starts another node with the mode's unwrap decision #%d", fnName(fn), ord.next(fnName(fn)+"/next"))
+					fc, isCall := a.(*ssa.Call)
+					q, isParam := a.(*ssa.Parameter)
+					switch {
+					case isCall && p.modePredicate(fc.Call.StaticCallee()) == "lax":
+						out.ok(key, p.pos(c.Pos()), fnName(fn), "the lax-mode predicate, handed to "+g.Name())
+					case isParam && q.Parent() == fn && (threaded[pk{fn, paramIndex(q)}] || feeds[pk{fn, paramIndex(q)}]):
+						out.ok(key, p.pos(c.Pos()), fnName(fn), "the decision the function was handed for this node")
+					default:
+						out.viol(key, p.pos(c.Pos()), fnName(fn), "a node other than the function's own is handed to "+g.Name()+" with the unwrap flag "+trunc(a.String(), 40)+" instead of the path's mode: in lax mode an array among the elements this step produces is not unwrapped for the step that follows")
+					}
+				}
+			}
+			for _, c := range p.allCalls(fn) {
+				g := c.Call.StaticCallee()
+				if c.Call.IsInvoke() || !noUnwrapFor(g) || ownNodeArg(fn, c) {
+					continue
+				}
+				// a node is handed over, and it is not the caller's own
+				var other ssa.Value
+				for _, a := range c.Call.Args {
+					if types.Identical(a.Type(), p.A.Node) && !isNilConst(a) {
+						other = a
+					}
+				}
+				if other == nil {
+					continue
+				}
+				nn++
+				key := fmt.Sprintf("%s starts another node with the mode's unwrap decision #%d", fnName(fn), ord.next(fnName(fn)+"/next"))
+				out.viol(key, p.pos(c.Pos()), fnName(fn), "a node other than the function's own ("+trunc(other.String(), 40)+") is handed to "+g.Name()+", which evaluates the node it is given with the unwrap flag false: in lax mode an array among the elements this step produces is not unwrapped for the step that follows")
+			}
+		}
 		out.Counts["next_node_dispatches"] = nn
 		out.Counts["threaded_unwrap_arguments"] = n
 		out.Floors["threaded_unwrap_arguments"] = 3
